@@ -155,7 +155,25 @@ def components(n, edges):
     return len({f(i) for i in range(n)})
 
 
-FAMILIES = ["random_sparse", "random_dense", "tree", "path", "cycle", "ladder", "comb", "complete", "bipartite",
+def sk_bicyclo222():
+    # two bridgeheads 0 and 1 joined by three two-atom bridges
+    e = []
+    for k in range(3):
+        a, b = 2 + 2 * k, 3 + 2 * k
+        e += [(0, a), (a, b), (b, 1)]
+    return 8, e
+
+
+def sk_adamantane():
+    # 4 CH (0-3) and 6 CH2 (4-9), every CH2 bridges two CH
+    pairs = [(0, 1), (0, 2), (0, 3), (1, 2), (1, 3), (2, 3)]
+    e = []
+    for k, (a, b) in enumerate(pairs):
+        e += [(a, 4 + k), (4 + k, b)]
+    return 10, e
+
+
+FAMILIES = ["cage_mixture", "random_sparse", "random_dense", "tree", "path", "cycle", "ladder", "comb", "complete", "bipartite",
             "union_identical", "prism", "cube", "petersen", "star", "isolated", "rare_elements", "partial_orbit",
             "wl_hard", "peptide", "two_components"]
 
@@ -266,6 +284,30 @@ def gen_mol(rng: random.Random, max_n=24, family=None) -> Mol:
         k = rng.randint(1, max(1, max_n // 4))
         e, syms = sk_peptide(k)
         return decorate(len(syms), e, rng, syms=syms, label_p=0.03, family=fam)
+    if fam == "cage_mixture":
+        # a symmetric cage together with enough further components that bonds < atoms overall
+        kind = rng.choice(["bicyclo222", "adamantane", "cube", "prism3", "K4", "two_rings"])
+        if kind == "bicyclo222":
+            n, e = sk_bicyclo222()
+        elif kind == "adamantane":
+            n, e = sk_adamantane()
+        elif kind == "cube":
+            n, e = 8, sk_cube()
+        elif kind == "prism3":
+            n, e = 6, sk_prism(3)
+        elif kind == "K4":
+            n, e = 4, sk_complete(4)
+        else:
+            a, b = rng.randint(3, 5), rng.randint(3, 6)
+            n, e = a + b, sk_cycle(a) + [(x + a, y + a) for x, y in sk_cycle(b)]
+        syms = ["C"] * n
+        if kind == "bicyclo222" and rng.random() < 0.5:
+            syms[0] = syms[1] = "N"
+        rings = len(e) - n + 1
+        extra = rng.randint(max(rings, 1), rings + 3)
+        for _ in range(extra):
+            syms.append(rng.choice(["Cl", "Na", "H", "O", "Br"]))
+        return decorate(len(syms), e, rng, syms=syms, label_p=0.0 if rng.random() < 0.7 else 0.08, family=fam + ":" + kind)
     if fam == "two_components":
         a = gen_mol(rng, max_n=max(1, max_n // 2), family="random_sparse")
         b = gen_mol(rng, max_n=max(1, max_n // 2), family="tree")
